@@ -19,10 +19,13 @@ pub struct Variable {
 impl Variable {
     pub(crate) fn new(span: Span, ident: Ident, local: &LocalEnv) -> Result<Self, Error> {
         if local.variable(&ident).is_none() {
-            let idents = local
+            let mut idents = local
                 .variable_idents()
                 .map(std::clone::Clone::clone)
                 .collect::<Vec<_>>();
+            // The identifiers come from a `HashMap`: sort them, so that the "did you mean" hint
+            // picks the same candidate among equally close ones on every compilation.
+            idents.sort();
 
             return Err(Error::undefined(ident, span, idents));
         }
